@@ -172,6 +172,9 @@ def run_binary(exe, workdir):
             time.sleep(0.02)
         if not registered:
             notshown.append("live: six proxy polls over TCP were not registered within 20 s (last /debug unavailable or different)")
+        # the idle proxy repeats its poll (same body, same session id) while the first one is still pending: both requests
+        # must be answered after the protocol's wait
+        spawn(proxy, "idle-poll-repeat", "idle0", "restricted")
         # clients: answered at once (good) or after the full wait (silent proxy), in the three request formats
         spawn(call, "client-v-good", "POST", "/client", client_body("offer-good-v"))
         spawn(call, "client-v-silent", "POST", "/client", client_body("offer-silent-v"))
@@ -203,6 +206,7 @@ def run_binary(exe, workdir):
             viol.append(("broker-process-died", "the broker process exited (rc=%s) while serving requests: %s" % (live.proc.returncode, tail[-400:]), rep("-")))
         # the slow ones: answered after the full wait
         slow = {"idle-poll": ("200 no match", lambda r: r["status"] == 200 and json.loads(r["body"]).get("Status") == "no match"),
+                "idle-poll-repeat": ("200 no match", lambda r: r["status"] == 200 and json.loads(r["body"]).get("Status") == "no match"),
                 "client-v-silent": ("200 timed out", lambda r: r["status"] == 200 and json.loads(r["body"]).get("error") == "timed out waiting for answer!"),
                 "client-l-silent": ("504", lambda r: r["status"] == 504),
                 "client-a-silent": ("200 armored", lambda r: r["status"] == 200 and len(r["body"]) > 0)}
